@@ -165,8 +165,10 @@ class SimQueue:
 
     def _pop(self):
         item = self.items.popleft()
-        if self.poplog is not None:
-            self.poplog.append((self.s.next_seq(), self.s.current.id, item))
+        pl = self.s.poplog
+        if pl is not None and type(item) is tuple and item and type(item[0]) is str \
+                and item[0].startswith("#IT:"):
+            pl.append((self.s.next_seq(), self.label, item[0][4:-1]))
         return item
 
     def get_nowait(self):
